@@ -88,12 +88,10 @@ def registry():
     ltb = ltb_contract(assumed=False)
     ltb.params = {'n': 'int', 'blocksize': 'int'}
     # lemma instances for the NEXT chunk, stated at the loop head (first invariants): 256**(len(J) + bits/8) == 2**bits * 256**len(J);
-    # the chunk's digits recombine to n mod 2**bits (proved lemma horner4/8); (n mod c)*P + (n div c)*(c*P) == n*P (proved lemma)
+    # (n mod c)*P + (n div c)*(c*P) == n*P (proved lemma split_mul)
     def step(bits):
         c = 2 ** bits
         out = ['pow2_add(%d, 8 * len(%s))' % (bits, J), 'lemma("integer.split_mul", n, %d, pow2(8 * len(%s)))' % (c, J)]
-        if bits > 8:
-            out.append('lemma("integer.horner%d", zmod(n, %d))' % (bits // 8, c))
         return out
     # when n0 fits blocksize bytes nothing is left once the blocksize bytes are out (proved lemma small_quot, instance first)
     fits = ['lemma("integer.small_quot", be(%s), n, pow2(8 * len(%s)))' % (J, J),
@@ -106,7 +104,7 @@ def registry():
                                                    'not (blocksize > 0 and old(ival(n)) < pow2(8 * blocksize))',    # (that case ended before)
                                                    'n == 0 ==> (len(result) >= 1 and be(result[0]) > 0)'] + step(64))}
     ltb.lemmas = {'exit': {'lt': 'be_lt(result)', 'lower': 'be_lower(result)', 'inj': 'i2osp_be(result)'}}
-    ltb.options = {'pacc_be': True, 'int_bytes': True}
+    ltb.options = {'pacc_be': True, 'int_bytes': True, 'pack_uf': True}     # pack_uf: a packed chunk is i2osp(x, k) with be() == x
     reg.add(ltb)
     return reg
 
